@@ -207,6 +207,30 @@ def run(ctx, rep):
             rep.violation('N5', vkey('N5', name, 'fold-both', ''), fn.loc(fn.span),
                           '%s applies the case-folding function to only %d operand stream(s)' % (name, n))
 
+    # ---------------- N7 number of long-name slots = ceil(units / 13)
+    GN = facts.fns.get('fatfs::dir::LfnEntriesGenerator::new')
+    if GN is not None:
+        from rules.siblings import arith_fingerprint
+        ops, calls_ = arith_fingerprint(GN)
+        part = facts.consts.get('fatfs::dir_entry::LFN_PART_LEN', {}).get('val', 13)
+        dg = Deps(GN)
+        # the value stored in `num`
+        num_ok = False
+        for bi in GN.reachable():
+            for s_ in GN.blocks[bi]['stmts']:
+                if s_['k'] == 'assign' and s_['rv']['k'] == 'agg' and 'num' in (s_['rv'].get('fields') or []):
+                    o = s_['rv']['ops'][s_['rv']['fields'].index('num')]
+                    tk = dg.of_operand(o)
+                    num_ok = ('const', part) in tk and any(t_[0] == 'call' and t_[1].endswith('::len') for t_ in tk)
+        ok = num_ok and calls_.get('div_ceil', 0) == 1 and not [k for k in ops if k[0] in ('Add', 'Sub', 'Div', 'Mul', 'Rem')]
+        rep.oblige('N7', GN.name, ok=ok, nontrivial=True,
+                   sample={'fn': GN.name, 'arithmetic': sorted(map(str, ops.items())), 'ceil_div': calls_.get('div_ceil', 0)})
+        if not ok:
+            rep.violation('N7', vkey('N7', GN.name, 'slot-count', ''), GN.loc(GN.span),
+                          'the number of long-name slots (and with it the sequence numbers) is not the name length divided '
+                          'by %d rounded up (arithmetic found: %s): names whose length is a multiple of %d get a sequence '
+                          'that readers reject' % (part, sorted(ops.elements()) + sorted(calls_.elements()), part))
+
     # ---------------- N5b equality needs both sequences exhausted
     EQ = facts.fns.get('fatfs::dir_entry::DirEntry::eq_name_lfn')
     if EQ is not None:
